@@ -45,6 +45,7 @@ MANIFEST = {
             'covered: preemptions inside one source line, more than c '
             'preemptions, parallelism without a GIL.',
 }
+DYNAMIC = True        # few heavy cases: dynamic load balancing
 RULE = ('templates x family {steady, compile} x threads {2, 3} x preemption '
         'bound c; schedules enumerated completely for the bound.  A '
         'schedule is non-trivial when it contains at least one context '
